@@ -1,6 +1,8 @@
 /- line-protocol engine `ord`: sorting / heap / selection with injectable comparator failures,
    the derivations of eq/cmp/hash/to_str and the format-specifier machinery (C19) -/
 import XrayModel.Sort
+import XrayModel.Derive
+import XrayModel.Format
 open XrayModel
 namespace XrayDriver
 namespace Ord
@@ -20,6 +22,107 @@ def showLRes : Sort.LRes String Int → String
   | .fail e b n => s!"fail {e} {showInts b} {n}"
   | .panic => "panic"
 
+/-! values: `i<dec>;` `T` `F` `s<cp>.<cp>…;` `(`items`)` tuple, `[`items`]` sequence,
+`{`items`}` stack (top first), `?`item some, `N` none -/
+open Derive in
+mutual
+partial def parseV : List Char → Option (V × List Char)
+  | 'i' :: rest =>
+    let ds := rest.takeWhile (· != ';')
+    match (String.ofList ds).toInt? with
+    | some v => some (.int v, (rest.dropWhile (· != ';')).drop 1)
+    | none => none
+  | 'T' :: rest => some (.bool true, rest)
+  | 'F' :: rest => some (.bool false, rest)
+  | 'N' :: rest => some (.opt none, rest)
+  | '?' :: rest => match parseV rest with
+    | some (v, r) => some (.opt (some v), r)
+    | none => none
+  | 's' :: rest =>
+    let body := rest.takeWhile (· != ';')
+    let after := (rest.dropWhile (· != ';')).drop 1
+    if body.isEmpty then some (.str "", after)
+    else match ((String.ofList body).splitOn ".").mapM String.toNat? with
+      | some cps => some (.str (String.ofList (cps.map Char.ofNat)), after)
+      | none => none
+  | '(' :: rest => match parseVs ')' rest with
+    | some (l, r) => some (.tuple l, r)
+    | none => none
+  | '[' :: rest => match parseVs ']' rest with
+    | some (l, r) => some (.seq l, r)
+    | none => none
+  | '{' :: rest => match parseVs '}' rest with
+    | some (l, r) => some (.stack l, r)
+    | none => none
+  | _ => none
+partial def parseVs (close : Char) : List Char → Option (List Derive.V × List Char)
+  | [] => none
+  | c :: rest =>
+    if c == close then some ([], rest)
+    else match parseV (c :: rest) with
+      | some (v, r) => match parseVs close r with
+        | some (l, r') => some (v :: l, r')
+        | none => none
+      | none => none
+end
+
+def showCps (s : String) : String := String.intercalate "." (s.toList.map (fun c => toString c.toNat))
+
+open Derive in
+partial def showV : V → String
+  | .int i => s!"i{i};"
+  | .bool b => if b then "T" else "F"
+  | .str s => "s" ++ showCps s ++ ";"
+  | .tuple l => "(" ++ String.join (l.map showV) ++ ")"
+  | .seq l => "[" ++ String.join (l.map showV) ++ "]"
+  | .stack l => "{" ++ String.join (l.map showV) ++ "}"
+  | .opt (some v) => "?" ++ showV v
+  | .opt none => "N"
+
+def showRB : Derive.R Bool → String
+  | .ok b => s!"bool {b}"
+  | .error e => "err " ++ e
+def showRI : Derive.R Int → String
+  | .ok i => s!"int {i}"
+  | .error e => "err " ++ e
+
+open Derive in
+def deriveOp (op : String) (a b : V) : String :=
+  match op with
+  | "eq" => showRB (V.eq a b)
+  | "ne" => showRB (Derive.ne V.eq a b)
+  | "cmp" => showRI (V.cmp a b)
+  | "lt" => showRB (Derive.lt V.cmp a b)
+  | "le" => showRB (Derive.le V.cmp a b)
+  | "gt" => showRB (Derive.gt V.cmp a b)
+  | "ge" => showRB (Derive.ge V.cmp a b)
+  | "min" => match Derive.min (Derive.lt V.cmp) a b with | .ok v => "val " ++ showV v | .error e => "err " ++ e
+  | "max" => match Derive.max (Derive.lt V.cmp) a b with | .ok v => "val " ++ showV v | .error e => "err " ++ e
+  | "hash" => showRI (V.hash sipHasher a)
+  | "to_str" => match V.toStr a with | .ok s => "str " ++ showCps s | .error e => "err " ++ e
+  | _ => "bad-op"
+
+def cpsToChars (s : String) : Option (List Char) :=
+  if s == "-" then some [] else ((s.splitOn ".").mapM String.toNat?).map (·.map Char.ofNat)
+
+def showOC : Option Char → String
+  | some c => toString c.toNat
+  | none => "-"
+
+def showSpec : Option Format.Spec → String
+  | none => "none"
+  | some sp =>
+    let (fill, align, zero, width) := match sp.fill with
+      | none => ("-", "-", "-", "-")
+      | some f => (showOC f.filler, showOC f.alignment, (if f.zeroPad then "1" else "0"), toString f.width)
+    let prec := match sp.precision with | some p => toString p | none => "-"
+    s!"fill={fill} align={align} zero={zero} width={width} prec={prec} sign={showOC sp.sign} group={showOC sp.grouping} type={showOC sp.mode} alt={if sp.alt then 1 else 0}"
+
+def showFmt : Format.FmtRes → String
+  | .ok s => "str " ++ String.intercalate "." (s.map (fun c => toString c.toNat))
+  | .err _ => "err"
+  | .panic => "panic"
+
 end Ord
 
 def ordEngine (f : String) (args : List String) : String :=
@@ -28,6 +131,27 @@ def ordEngine (f : String) (args : List String) : String :=
     match d.toInt?, k.toInt?, Ord.parseInts xs with
     | some d, some k, some xs => if d ≥ 1 then Ord.showLRes (Sort.trySort (Ord.ltKey d k) xs) else "bad-op"
     | _, _, _ => "bad-op"
+  | "derive", [op, a, b] =>
+    match Ord.parseV a.toList, Ord.parseV b.toList with
+    | some (va, []), some (vb, []) => Ord.deriveOp op va vb
+    | _, _ => "bad-op"
+  | "spec", [s] => match Ord.cpsToChars s with
+    | some cs => Ord.showSpec (Format.parseSpec cs)
+    | none => "bad-op"
+  | "fillers", [s, len] => match Ord.cpsToChars s, len.toNat? with
+    | some cs, some n => match Format.parseSpec cs with
+      | some sp => match sp.fill with
+        | some f => let p := Format.fillers f n
+                    String.ofList p.1 ++ "|" ++ String.ofList p.2.1 ++ "|" ++ String.ofList p.2.2
+        | none => "none"
+      | none => "none"
+    | _, _ => "bad-op"
+  | "fmtint", [i, s] => match i.toInt?, Ord.cpsToChars s with
+    | some i, some cs => Ord.showFmt (Format.formatInt i cs)
+    | _, _ => "bad-op"
+  | "fmtstr", [x, s] => match Ord.cpsToChars x, Ord.cpsToChars s with
+    | some x, some cs => Ord.showFmt (Format.formatStr x cs)
+    | _, _ => "bad-op"
   | _, _ => "bad-op"
 
 end XrayDriver
